@@ -61,6 +61,11 @@ func c21Events() []c21Ev {
 	for _, sq := range []string{"none", "recorded"} {
 		evs = append(evs, c21Ev{Kind: "release", H: "n", Seq: sq, Handle: "other"})
 	}
+	// the host gives up its block affinity: "only if the block is empty" (deletes an empty block) and
+	// unconditionally (a non-empty block lives on without affinity, later addresses are borrowed from
+	// it and it is deleted with its last address) - the paths that can delete a block and, with
+	// it, the cooldown records it holds
+	evs = append(evs, c21Ev{Kind: "relhost", H: "if-empty"}, c21Ev{Kind: "relhost", H: "always"})
 	evs = append(evs, c21Ev{Kind: "rbh", H: "a"}, c21Ev{Kind: "rbh", H: "b"}, c21Ev{Kind: "advance", H: "300"}, c21Ev{Kind: "advance", H: "700"})
 	return evs
 }
@@ -147,7 +152,11 @@ func (s *c21State) proj() string { return s.projSeq(true) }
 func (s *c21State) projSeq(withSeq bool) string {
 	var b strings.Builder
 	for _, vb := range s.w.blocks() {
-		fmt.Fprintf(&b, "%s free=%v [", vb.CIDR, vb.B.Unallocated)
+		aff := "-"
+		if vb.B.Affinity != nil {
+			aff = *vb.B.Affinity
+		}
+		fmt.Fprintf(&b, "%s aff=%s free=%v [", vb.CIDR, aff, vb.B.Unallocated)
 		for o, ai := range vb.B.Allocations {
 			if ai == nil {
 				continue
@@ -173,6 +182,9 @@ func (s *c21State) projSeq(withSeq bool) string {
 	sort.Strings(names)
 	for _, h := range names {
 		fmt.Fprintf(&b, " H%s=%v", h, hs[h])
+	}
+	for _, a := range s.w.affinities() {
+		fmt.Fprintf(&b, " A%s:%s:%s", a.Host, a.CIDR, a.State)
 	}
 	return b.String()
 }
@@ -248,6 +260,12 @@ func c21Apply(s *c21State, e c21Ev) {
 		seq := w.allocs()[ip].Seq
 		*m = c21Addr{Alloc: true, Handle: h, Seq: seq}
 		s.lastIP[e.H], s.lastSeq[e.H] = ip, seq
+	case "relhost":
+		err := w.ic.ReleaseHostAffinities(w.ctx, ipam.AffinityConfig{AffinityType: ipam.AffinityTypeHost, Host: "n1"}, e.H == "if-empty")
+		s.last = "relhost:" + e.H + ":" + errClass(err)
+		// no clause of its own: what it may break (an allocation lost with a deleted block, a cooldown
+		// record lost so that the address comes back too early) is caught by the model comparison
+		// below and by the cooldown clause at the next hand-out
 	case "assignip":
 		// explicit assignment of one named address (to handle b): the caller chooses, so no queue-order
 		// demand on THIS call; it must not take an allocated address nor one still in cooldown, and it
@@ -445,7 +463,7 @@ func c21Key(s *c21State) string {
 
 func TestVerif_C21(t *testing.T) {
 	vk.Run(t, "C21", func(c *vk.Ctx) {
-		c.Rule("histories over 30 events + AssignIP of each address of the block (to handle b; whatever its place in the free queue): assign(handle a|b, or WITHOUT a handle = client n), release of the address last granted to a|b x sequence number {none, the one the client recorded, a wrong one} x handle {none, own, the other}, release-by-handle a|b, advance 300 s, advance 700 s; one block of 4 addresses (/30) and one of 2 addresses (/31); cooldown 600 s and cooldown 0; tree mode (every history) to a small depth and graph mode (de-duplicated on store projection + model + clients' memory + cooldown phase) deeper; non-trivial = state with >=1 released address")
+		c.Rule("histories over 32 events (incl. ReleaseHostAffinities only-if-empty / unconditional, which can delete the block) + AssignIP of each address of the block (to handle b; whatever its place in the free queue): assign(handle a|b, or WITHOUT a handle = client n), release of the address last granted to a|b x sequence number {none, the one the client recorded, a wrong one} x handle {none, own, the other}, release-by-handle a|b, advance 300 s, advance 700 s; one block of 4 addresses (/30) and one of 2 addresses (/31); cooldown 600 s and cooldown 0; tree mode (every history) to a small depth and graph mode (de-duplicated on store projection + model + clients' memory + cooldown phase) deeper; non-trivial = state with >=1 released address")
 		c.Assume("reference model written from the statement; stored time stamps are second-granular, so 'cooldown passed' and 'free for longer' are judged with one second of slack; sequential use of the client")
 		spec := func(cooldown, naddr int, graph bool, depth int) *hbfs.Spec[*c21State, c21Ev] {
 			sp := &hbfs.Spec[*c21State, c21Ev]{
